@@ -73,6 +73,10 @@ package main
 // LevelDBStore.FirstIndex/LastIndex never return an error: the two error returns are dead code
 //@ func FSM.Snapshot
 //@   opt dead = return#0 return#1
+// C07: an entry that is folded into the snapshot state (and then deleted from the log copy) has been
+// applied to that state first; for an entry marked as message of death this means the session's
+// duplicate-detection marker has advanced over it.
+//@   assert@call OutputStream.Delete#0 : mod-folded: parsed.Type == robust.MessageOfDeath && parsed.Session in tmpServer.sessions ==> tmpServer.sessions[parsed.Session].lastClientMessageId == parsed.ClientMessageId
 //@   assert@call NewMessageFromBytes#0 : decoded: len(value) > 0 && value[0] == 'p' ==> raftRepr(addrof(p), addrof(nlog))
 //@   assert@call NewMessageFromBytes#0 : same-entry: sameslice(callarg0, nlog.Data) && callarg1 == robust.IdFromRaftIndex(nlog.Index)
 //@ func FSM.decodeProtobuf
@@ -85,3 +89,13 @@ package main
 //@ func canary
 //@   assert@call NewMessageFromBytes#0 : decoded: len(value) > 0 && value[0] == 'p' ==> raftRepr(addrof(p), addrof(nlog))
 //@   assert@call NewMessageFromBytes#0 : same-entry: sameslice(callarg0, nlog.Data) && callarg1 == robust.IdFromRaftIndex(nlog.Index)
+
+// ---------------------------------------------------------------------------
+// C07: message of death. When applying an entry panics, the deferred handler
+// of applyProto re-encodes exactly that message with its type set to
+// MessageOfDeath and writes exactly that log entry (same index) to the
+// durable raft log store (fsm.store, not the node-local copy) before the
+// process is terminated.
+//@ func FSM.applyProto$1
+//@   assert@call Message.ProtoMessage#0 : mod-type: callarg0 == msg && msg.Type == robust.MessageOfDeath
+//@   assert@call LevelDBStore.StoreLogProto#0 : mod-durable: callarg0 == fsm.store && callarg1 == l && msg.Type == robust.MessageOfDeath && l.Index == old(l.Index) && l.Term == old(l.Term) && l.Type == old(l.Type)
